@@ -69,6 +69,7 @@ void fmc_heap_check(const void* p, size_t n, const char* what);
 #define FMC_O_STACK 2u    // access below another fiber's live stack is a violation
 #define FMC_O_RUNMAP 4u   // C01 fiber run map (runtime harnesses)
 #define FMC_O_WAKES 8u    // C02 wake accounting (runtime harnesses)
+#define FMC_O_OWNER 32u   // owner-only run-queue operations (push_bottom/pop_bottom) never overlap on two kernel threads
 #define FMC_O_RECLAIM 16u // C04: a fiber is reclaimed once, only when finished, saved and not queued
 void fmc_oracles(unsigned mask);
 unsigned fmc_oracle_mask(void);
